@@ -203,9 +203,15 @@ def run(ctx):
         if a[0].startswith("stuck:no impl"):
             n_sem_skip_stuck += 1     # needs type-passing dispatch at Core level (trait call on a type Sem has no key for)
             continue
-        if a[2].strip() or b[2].strip():
-            n_sem_skip_ext += 1
+        if a[2].strip() != b[2].strip():
+            # a call that `Sem` cannot resolve to a function or builtin is an extern event: the two programs
+            # must make the same ones (a Mono program calling a function that does not exist shows up here)
+            ctx.report({"oracle": "sem", "kind": "extern-events-differ"},
+                       "the Mono program calls functions the Core program does not (or vice versa)",
+                       {"id": k, "src": src, "core_externs": a[2][:300], "mono_externs": b[2][:300]})
             continue
+        if a[2].strip():
+            n_sem_skip_ext += 1     # real extern \"go\" functions: compared including the events
         if a[0].startswith("stuck"):
             ctx.broken_ties.append(("Sem cannot run the Core program (model gap)", f"{k}: {a[0]}"))
             continue
@@ -254,7 +260,7 @@ def run(ctx):
         "tie_cases": n_tie, "tie_mono_dump_equal": n_tie_eq, "tie_both_panic": n_tie_panic,
         "instances_specialised_total": n_inst,
         "sem_compared": n_sem, "sem_equal": n_sem_eq, "sem_skipped_core_needs_type_passing": n_sem_skip_stuck,
-        "sem_skipped_fuel": n_sem_skip_fuel, "sem_skipped_extern": n_sem_skip_ext,
+        "sem_skipped_fuel": n_sem_skip_fuel, "sem_with_extern_events(compared)": n_sem_skip_ext,
         "closed_dumps_checked": n_closed, "closed_dumps_ok": n_closed_ok,
         "termination_cases": n_rec, "termination_hangs": n_rec_hang, "termination_tie_agree": n_rec_tie,
         "panics_in_later_stages(owned by C04)": later_panics,
